@@ -27,7 +27,7 @@ def run(src, std):
         n_bad += 1
 
 
-for p in PG.base_programs():
+for p in PG.programs('quick'):
     src = G.program_text(p, {})
     run(src, "f2008" if G.is_f08(p) else "f2003")
     run(src, "f2008")
